@@ -560,7 +560,9 @@ func replayEval(f *family, c *tcase) {
 		if variables && res.pm == "" && res.err == nil {
 			// derivatives w.r.t. the activated parameters of object A
 			for _, i := range f.Dv {
-				dv := math.NaN()
+				// a result that carries no derivative information does not
+				// depend on the variables: its derivative is 0
+				dv := 0.0
 				if r.GetOrder() >= 1 && i-1 < r.GetN() {
 					dv = r.GetDerivative(i - 1)
 				}
@@ -657,7 +659,21 @@ func replayEval(f *family, c *tcase) {
 			}
 		}
 		// ---- derivatives w.r.t. the parameters against Expr!D of the term
-		if len(res.d) > 0 && wantOK && c.Cls == "finite" {
+		singular := false
+		if c.B != 0 {
+			// object A got its parameters through the parameter vector and object B is a
+			// clone (Binomial clones through exp(log theta)); where the
+			// layout is singular (log theta at theta = 0) the chain rule through
+			// SetParameters is not defined
+			pv, _, _ := f.pvecOf(p)
+			for _, v := range pv {
+				if math.IsInf(v, 0) {
+					singular = true
+					counts["deriv_skipped_singular_layout"]++
+				}
+			}
+		}
+		if len(res.d) > 0 && wantOK && c.Cls == "finite" && !singular {
 			for k, i := range f.Dv {
 				dw, denv := evalTerm(vr.dlp[k], vars)
 				if !dw.Finite() || denv.Overflow || len(denv.Ties) > 0 {
